@@ -39,4 +39,9 @@ CHECKS = {
         technique="reference-model monitor (view = plain StoreModel initialised from the fall-back content) after every operation + fall-back immutability snapshot compared after every operation",
         text="Seeded random fall-back contents and well-formed histories through the overlay (incl. re-creation after removal, both metadata-update styles, recursive removal) for memory and directory stores in either role. Exploration.",
         note="Removed key may read as raises or None; well-formed histories only."),
+    "C01": dict(
+        category=_EXPL, design_ref="DESIGN.md section 4, C01 and 3.2",
+        technique="reference-model monitor: real Context.evaluate (no cache) vs an independent reference interpreter of the parsed query over the undecorated vocabulary functions; type-strict comparison of value, state variables, last command, file name, extension; call log recorded",
+        text="Thousands of seeded grammar-directed queries (all parameter kinds and argument shapes, links to depth 3, namespaces, state variables, sub-evaluations, file names, injected input, extra parameters) each compared field by field. Exploration with a feature-coverage table; empty feature class => inconclusive.",
+        note="Reference interpreter (~250 lines) is trusted; vocabulary follows the documented command conventions; queries implying >300 executions discarded."),
 }
